@@ -69,4 +69,14 @@ PROPS = {
                      "validation of the converter-only settings themselves (name, output:*, extend, enum:exclude) is outside the model",
                      "the effect of a record on generation is covered by the core streams, whose cases compute the record with this model from the raw lines"],
     ),
+    "C13": dict(
+        props="props/C13.v",
+        libs=["theories/ErrFmt.vo"],
+        streams=[dict(name="c13")],
+        mismatch_is_violation=True,   # ToString panics where the model says it does not (or vice versa)
+        modelled="builder/error.go ToString (every strings.Repeat count, ErrFmt.v; the guard in space() is read from the source), the settings front end (Settings.v); "
+                 "the inventory of explicit panic( sites is regenerated from the source; the generator itself is fuzzed under recover (not modelled for this property)",
+        assumptions=["panics inside go/packages, jennifer and the Go runtime are outside any model; for them the fuzzer is the only evidence",
+                     "termination is observed with a deadline, not proved"],
+    ),
 }
